@@ -91,6 +91,13 @@ Proof.
   - rewrite Nat.eqb_refl. reflexivity.
 Qed.
 
+Lemma call_diag_shape_fixed_ok t n :
+  call_diag_shape_fixed (t ++ [n]) t n = t ++ [n] /\ call_diag_shape_fixed (t ++ [n; n]) t n = t ++ [n].
+Proof.
+  destruct (diag_heuristic_fixed t n) as [H1 H2]. unfold call_diag_shape_fixed. rewrite H1, H2.
+  split; [reflexivity|]. change [n; n] with ([n] ++ [n]). rewrite app_assoc. apply removelast_last.
+Qed.
+
 (* ------------------------------------------------------------------ Tensor.expand *)
 
 Lemma bc_dim_keeps_right x y : bc_dim x y = Some y <-> (Nat.eqb x y || Nat.eqb x 1) = true.
@@ -137,6 +144,9 @@ Qed.
 Lemma mt_noise_batch_refuted :
   exists sp sd t, broadcast_shapes sp sd = Some t /\ mt_noise_batch sp sd = None.
 Proof. exists [2], [], [2]. split; reflexivity. Qed.
+
+Lemma mt_noise_batch_fixed_ok sp sd : mt_noise_batch_fixed sp sd = broadcast_shapes sp sd.
+Proof. unfold mt_noise_batch_fixed. apply broadcast_shapes_comm. Qed.
 
 (* the failing class is exactly "the broadcast batch is not the data batch" *)
 Lemma mt_noise_batch_fails_iff sp sd t :
